@@ -56,7 +56,11 @@ class Syntax:
             elif name in cls_of_term:
                 self.src_term_ids[name] = [sid(refgrammar.C(c)) for c in cls_of_term[name]]
             else:
-                self.src_term_ids[name] = [sid("S:" + name)]
+                # a regex token that stands for one or more keyword / punctuation spellings (e.g. `(is_)?none`): it covers exactly
+                # the reference literals it matches and that no higher-priority literal token of the source takes
+                lits = [l for l in sorted(refgrammar.literals()) if py_fullmatch(text, l)
+                        and not any(g.terminals[o][0] == "lit" and g.terminals[o][1] == l for o in g.order)]
+                self.src_term_ids[name] = [sid(refgrammar.T(l)) for l in lits] or [sid("S:" + name)]
         self.alphabet = syms
 
     def lexeme(self, aid, pos):
